@@ -29,18 +29,21 @@ func (a Arch) MarshalControl() (string, error) {
 }
 
 func (a Arch) String() string {
-	/* ABI-OS-CPU -- gnu-linux-amd64 */
-	els := []string{}
-	if a.ABI != "any" && a.ABI != "all" && a.ABI != "gnu" && a.ABI != "" {
-		els = append(els, a.ABI)
+	/* ABI-OS-CPU -- gnu-linux-amd64. Use the shortest name that ParseArch
+	 * reads back as exactly this Arch: "any" and "all" stand for themselves,
+	 * a bare CPU means gnu-linux-CPU, and OS-CPU leaves the ABI open. */
+	if a.ABI == a.OS && a.OS == a.CPU && (a.CPU == "any" || a.CPU == "all") {
+		return a.CPU
 	}
-
-	if a.OS != "any" && a.OS != "all" && a.OS != "linux" {
-		els = append(els, a.OS)
+	if !strings.Contains(a.CPU, "-") {
+		if a.ABI == "gnu" && a.OS == "linux" && a.CPU != "any" && a.CPU != "all" {
+			return a.CPU
+		}
+		if a.ABI == "any" {
+			return a.OS + "-" + a.CPU
+		}
 	}
-
-	els = append(els, a.CPU)
-	return strings.Join(els, "-")
+	return a.ABI + "-" + a.OS + "-" + a.CPU
 }
 
 func (set ArchSet) String() string {
